@@ -109,6 +109,21 @@ func verifInstallStubs() {
 	}
 }
 
+// verifSwOf: the component container member of an alias-level claims struct (nil otherwise)
+func verifSwOf(v interface{}) ISwComponents {
+	switch p := v.(type) {
+	case *p1Claims:
+		return p.SwComponents
+	case *p2Claims:
+		return p.SwComponents
+	case *P2Claims: // profile 2 has no Marshal method of its own: the claims struct reaches the codec directly
+		return p.SwComponents
+	case P2Claims:
+		return p.SwComponents
+	}
+	return nil
+}
+
 type verifEM struct{}
 
 func (verifEM) Marshal(v interface{}) ([]byte, error) {
@@ -121,6 +136,14 @@ func (verifEM) Marshal(v interface{}) ([]byte, error) {
 		out, err := m.MarshalCBOR()
 		verifStub.emTop = prev
 		return out, err
+	}
+	// the library encodes a non-nil component container through the container's own method
+	if sw := verifSwOf(v); sw != nil {
+		if m, ok := sw.(cbor.Marshaler); ok {
+			if _, err := m.MarshalCBOR(); err != nil {
+				return nil, err
+			}
+		}
 	}
 	verifStub.emCalls++
 	verifStub.emArg = v
@@ -345,6 +368,13 @@ func verifJSONMarshal(v interface{}) ([]byte, error) {
 	}
 	if m, ok := v.(json.Marshaler); ok {
 		return m.MarshalJSON()
+	}
+	if sw := verifSwOf(v); sw != nil {
+		if m, ok := sw.(json.Marshaler); ok {
+			if _, err := m.MarshalJSON(); err != nil {
+				return nil, err
+			}
+		}
 	}
 	verifStub.jsonCalls++
 	verifStub.jsonArg = v
